@@ -543,6 +543,16 @@ def mk_fixed():
         out.append(dict(x=x, op=dict(op="bins", sel=("slice", 1, 1, None)), other=None))     # empty: rejected
         out.append(dict(x=x, op=dict(op="bins", sel=("int", 3)), other=None))               # out of range
         out.append(dict(x=x, op=dict(op="bins", sel=("int", -3)), other=None))
+        # every single-index selection incl. the negative ones (the last bin as -1, the first as -n)
+        for i in (0, 1, 2, -1, -2):
+            out.append(dict(x=x, op=dict(op="bins", sel=("int", i)), other=None))
+        out.append(dict(x=x, op=dict(op="bins", sel=("slice", -1, None, None)), other=None))
+        out.append(dict(x=x, op=dict(op="bins", sel=("slice", -2, -1, None)), other=None))
+    for x in (pc, sw, nc, cf):
+        for i in (0, 2, -1, -3):
+            out.append(dict(x=x, op=dict(op="patches", sel=("int", i)), other=None))
+        out.append(dict(x=x, op=dict(op="bins_sample", sel=("int", -1)), other=None))
+        out.append(dict(x=x, op=dict(op="patches_sample", sel=("int", -1)), other=None))
     return out
 
 
